@@ -174,6 +174,46 @@ def float_zero_linearised(chk: Check, n):
                 break
 
 
+def float_ratio_covariate_units(chk: Check, n):
+    """rescaling ONE column of a ratio covariate (numerator or denominator, by 1e-7 … 1e7) changes nothing"""
+    import numpy as np
+    import pyarrow as pa
+    import tea_tasting as tt
+    rng = np.random.default_rng(chk.seed + 69)
+    for k in range(n):
+        alt, ev, ut = analysis.CELLS[k % len(analysis.CELLS)]
+        nc, nt = int(rng.integers(20, 120)), int(rng.integers(20, 120))
+        N = nc + nt
+        d = rng.integers(1, 6, N).astype(float)
+        y = rng.normal(3, 1, N) * d
+        dx = d + rng.integers(0, 3, N)
+        x = 0.6 * y + rng.normal(0, 1, N) * dx
+        kw = dict(alternative=alt, equal_var=ev, use_t=ut)
+        base = None
+        for which, c in (("-", 1.0), ("dx", 1e7), ("dx", 1e-7), ("x", 1e7), ("x", 1e-6)):
+            data = pa.table({"variant": [0] * nc + [1] * nt, "y": y, "d": d, "x": x * (c if which == "x" else 1.0),
+                             "dx": dx * (c if which == "dx" else 1.0)})
+            chk.case(("ratio-covariate-units", which, c, alt, ev, ut))
+            chk.branch("consequence:ratio-covariate-units")
+            try:
+                r = tt.RatioOfMeans("y", "d", "x", "dx", **kw).analyze(data, 0, 1, "variant")
+            except Exception as ex:  # noqa: BLE001
+                chk.fail("analysis raised on plain float data", dict(rescaled=which, factor=c, error=repr(ex)))
+                break
+            if base is None:
+                base = r
+                continue
+            bad = [f for f in analysis.FIELDS
+                   if not (float(getattr(base, f)) == float(getattr(r, f))
+                           or abs(float(getattr(base, f)) - float(getattr(r, f)))
+                           <= 1e-7 * max(abs(float(getattr(base, f))), abs(float(getattr(r, f)))) + 1e-12)]
+            if bad:
+                chk.fail(f"rescaling the covariate column '{which}' by {c:g} changes field {bad[0]} far beyond rounding",
+                         dict(options=kw, n=[nc, nt], field=bad[0], original=float(getattr(base, bad[0])),
+                              rescaled=float(getattr(r, bad[0])), seed=chk.seed, case=k))
+                break
+
+
 def float_other_variants(chk: Check, n):
     """theta and the covariate centre are pooled over CONTROL and TREATMENT: a third variant present in the data must not
     enter them — the pair analysed inside a three-variant frame equals the pair analysed on its own rows"""
@@ -248,6 +288,7 @@ def main():
     consequences(chk, cases[:: 2 if chk.tier == "quick" else 1])
     float_zero_linearised(chk, 12 if chk.tier == "quick" else 120)
     float_other_variants(chk, 12 if chk.tier == "quick" else 120)
+    float_ratio_covariate_units(chk, 12 if chk.tier == "quick" else 120)
     reuse.metric_object_reuse(chk, 12 if chk.tier == "quick" else 120, "the adjustment must be the one of the data at hand")
     float_affine(chk, 12 if chk.tier == "quick" else 96)
     chk.cov["rule"] = ("random rational data sets (2..28 rows per variant, balanced and 1:many), metric kinds "
